@@ -35,6 +35,11 @@ func All() []*Info {
 		&Info{Name: "p256", Family: "p256", Group: p256.NewBlakeSHA256P256(), Order: OrderP256, ScalarTy: "modint-p256", CanBase: true, CanPick: true, CanEmbed: true},
 		&Info{Name: "qr512", Family: "qr", Group: p256.NewBlakeSHA256QR512(), Order: OrderQR512, ScalarTy: "modint-qr", CanBase: true, CanPick: true, CanEmbed: true},
 	)
+	// a DSA-style residue group with cofactor R = 44 > 2 (the stock QR512 has R = 2, where
+	// "quadratic residue" and "in the order-Q subgroup" coincide): P = 44*Q + 1, G = 2^44
+	qr72 := new(p256.QrSuite)
+	qr72.SetParams(bi("811656739243220271677"), OrderQR72, big.NewInt(44), bi("17592186044416"))
+	out = append(out, &Info{Name: "qr72-r44", Family: "qr", Group: qr72, Order: OrderQR72, ScalarTy: "modint-qr72", CanBase: true, CanPick: true, CanEmbed: true})
 	b6 := bn256.NewSuite()
 	out = append(out,
 		&Info{Name: "bn256-g1", Family: "bn256", Sort: "G1", Group: b6.G1(), Order: OrderBN256, ScalarTy: "modint-bn256", CanBase: true, CanPick: true, CanEmbed: true, Suite: b6, SuiteKey: "bn256"},
